@@ -91,6 +91,12 @@ Fixpoint ty_eqb (a b : ty) {struct a} : bool :=
                       | [], [] => true
                       | x :: r, y :: r' => ty_eqb x y && go r r'
                       | _, _ => false end) l l'
+  | TVar n sc hb l, TVar n' sc' hb' l' =>
+      Nat.eqb n n' && Nat.eqb sc sc' && Bool.eqb hb hb' &&
+      (fix go l l' := match l, l' with
+                      | [], [] => true
+                      | x :: r, y :: r' => ty_eqb x y && go r r'
+                      | _, _ => false end) l l'
   | _, _ => false
   end.
 
@@ -120,7 +126,13 @@ Fixpoint py_eqb (a b : ty) {struct a} : bool :=
                       | [], [] => true
                       | x :: r, y :: r' => py_eqb x y && go r r'
                       | _, _ => false end) l l'
-  | TUnion _, _ | TGen _ _ _, _ | TTup _ _ _, _ | TCall _ _ _, _ => false
+  | TVar n sc hb l, TVar n' sc' hb' l' =>
+      Nat.eqb n n' && Nat.eqb sc sc' && Bool.eqb hb hb' &&
+      (fix go l l' := match l, l' with
+                      | [], [] => true
+                      | x :: r, y :: r' => py_eqb x y && go r r'
+                      | _, _ => false end) l l'
+  | TUnion _, _ | TGen _ _ _, _ | TTup _ _ _, _ | TCall _ _ _, _ | TVar _ _ _ _, _ => false
   | _, _ => ty_eqb a b
   end.
 
@@ -176,6 +188,7 @@ Section Visit.
     | TGen k c ps => fG (fB k) c (map visit ps)
     | TTup k c ps => TTup (fB k) c (map visit ps)
     | TCall k c ps => TCall (fB k) c (map visit ps)
+    | TVar n sc hb ps => TVar n sc hb (map visit ps)      (* bound / constraints are child nodes *)
     end.
 End Visit.
 Definition id_kind (k : kind) : kind := k.
@@ -357,13 +370,14 @@ Fixpoint cc (fuel : nat) (t : ty) {struct fuel} : option ty :=
     | TGen k c ps => option_map (TGen k c) (map_opt (cc f) ps)
     | TTup k c ps => option_map (TTup k c) (map_opt (cc f) ps)
     | TCall k c ps => option_map (TCall k c) (map_opt (cc f) ps)
+    | TVar n sc hb ps => option_map (TVar n sc hb) (map_opt (cc f) ps)
     | _ => Some t
     end
   end.
 
 Fixpoint size (t : ty) : nat :=
   match t with
-  | TUnion ts | TGen _ _ ts | TTup _ _ ts | TCall _ _ ts =>
+  | TUnion ts | TGen _ _ ts | TTup _ _ ts | TCall _ _ ts | TVar _ _ _ ts =>
       S (fold_right (fun x n => size x + n) 0 ts)
   | _ => 1
   end.
@@ -374,23 +388,29 @@ Definition combine_containers (t : ty) : ty := match cc_top t with Some t' => t'
 Definition map_param (f : ty -> ty) (p : param) : param :=
   mkParam (p_name p) (f (p_ty p)) (p_kind p) (p_opt p) (option_map f (p_mut p)).
 (* position-wise: parameters (type and mutated type), return type, exceptions *)
-Definition map_sig3 (fp fr fe : ty -> ty) (s : sig) : sig :=
+(* [ft]: the TypeParameters of the template items *)
+Definition map_sig4 (fp fr fe ft : ty -> ty) (s : sig) : sig :=
   mkSig (map (map_param fp) (s_params s)) (option_map (map_param fp) (s_star s))
-        (option_map (map_param fp) (s_starstar s)) (fr (s_ret s)) (map fe (s_exc s)).
-Definition map_sig (f : ty -> ty) : sig -> sig := map_sig3 f f f.
+        (option_map (map_param fp) (s_starstar s)) (fr (s_ret s)) (map fe (s_exc s)) (map ft (s_template s)).
+Definition same_ty (t : ty) : ty := t.
+Definition map_sig3 (fp fr fe : ty -> ty) : sig -> sig := map_sig4 fp fr fe same_ty.
+Definition map_sig (f : ty -> ty) : sig -> sig := map_sig4 f f f f.
 Definition map_func (g : sig -> sig) (fn : func) : func :=
   mkFunc (f_name fn) (f_kind fn) (map g (f_sigs fn)).
 Definition map_const (f : ty -> ty) (c : const) : const := mkConst (k_name c) (f (k_ty c)).
-Definition map_class (gf : cid -> func -> func) (gc : const -> const) (c : class) : class :=
-  mkClass (cl_name c) (cl_bases c) (map (gf (cl_name c)) (cl_methods c)) (map gc (cl_consts c)).
+Definition map_class_t (gf : cid -> func -> func) (gc : const -> const) (ft : ty -> ty) (c : class) : class :=
+  mkClass (cl_name c) (cl_bases c) (map (gf (cl_name c)) (cl_methods c)) (map gc (cl_consts c))
+          (map ft (cl_template c)).
+Definition map_class (gf : cid -> func -> func) (gc : const -> const) : class -> class :=
+  map_class_t gf gc same_ty.
 (* position-wise over a unit: parameters, returns, exceptions, constants *)
-Definition map_unit4 (fp fr fe fc : ty -> ty) (u : unit_) : unit_ :=
+Definition map_unit5 (fp fr fe fc ft : ty -> ty) (u : unit_) : unit_ :=
   mkUnit (map (map_const fc) (u_consts u))
-         (map (map_class (fun _ => map_func (map_sig3 fp fr fe)) (map_const fc)) (u_classes u))
-         (map (map_func (map_sig3 fp fr fe)) (u_funcs u)).
-(* a pass acting on every type position of the unit *)
-Definition map_ty_unit (f : ty -> ty) : unit_ -> unit_ := map_unit4 f f f f.
-Definition same_ty (t : ty) : ty := t.
+         (map (map_class_t (fun _ => map_func (map_sig4 fp fr fe ft)) (map_const fc) ft) (u_classes u))
+         (map (map_func (map_sig4 fp fr fe ft)) (u_funcs u)).
+Definition map_unit4 (fp fr fe fc : ty -> ty) : unit_ -> unit_ := map_unit5 fp fr fe fc same_ty.
+(* a pass acting on every type position of the unit (templates of signatures and classes included) *)
+Definition map_ty_unit (f : ty -> ty) : unit_ -> unit_ := map_unit5 f f f f f.
 (* a pass acting on whole functions (methods included) *)
 Definition map_funcs_unit (g : func -> func) (u : unit_) : unit_ :=
   mkUnit (u_consts u)
@@ -416,7 +436,7 @@ Definition param_eqb (a b : param) : bool :=
   && Bool.eqb (p_opt a) (p_opt b) && option_eqb ty_eqb (p_mut a) (p_mut b).
 Definition stripped_eqb (a b : sig) : bool :=
   list_eqb param_eqb (s_params a) (s_params b) && option_eqb param_eqb (s_star a) (s_star b)
-  && option_eqb param_eqb (s_starstar a) (s_starstar b).
+  && option_eqb param_eqb (s_starstar a) (s_starstar b) && list_eqb ty_eqb (s_template a) (s_template b).
 Definition sig_eqb (a b : sig) : bool :=
   stripped_eqb a b && ty_eqb (s_ret a) (s_ret b) && list_eqb ty_eqb (s_exc a) (s_exc b).
 
@@ -428,7 +448,7 @@ Definition remove_duplicates_f (fn : func) : func :=
 Definition combine_group (sigs : list sig) (s0 : sig) : sig :=
   let ms := filter (stripped_eqb s0) sigs in
   mkSig (s_params s0) (s_star s0) (s_starstar s0)
-        (join (dedup_py (map s_ret ms))) (dedup_py (flat_map s_exc ms)).
+        (join (dedup_py (map s_ret ms))) (dedup_py (flat_map s_exc ms)) (s_template s0).
 Definition combine_returns_f (fn : func) : func :=
   mkFunc (f_name fn) (f_kind fn)
          (map (combine_group (f_sigs fn)) (dedup_by stripped_eqb (f_sigs fn))).
@@ -442,7 +462,7 @@ Definition normalize_self_sig (cls : cid) (s : sig) : sig :=
                   | TGen k c _ | TTup k c _ | TCall k c _ => TName k c
                   | t => t end in
       mkSig (mkParam (p_name p) base (p_kind p) (p_opt p) (p_mut p) :: rest)
-            (s_star s) (s_starstar s) (s_ret s) (s_exc s)
+            (s_star s) (s_starstar s) (s_ret s) (s_exc s) (s_template s)
     else s
   | [] => s
   end.
@@ -463,35 +483,183 @@ Definition absorb_param (p : param) : param :=
   end.
 Definition absorb_sig (s : sig) : sig :=
   mkSig (map absorb_param (s_params s)) (option_map absorb_param (s_star s))
-        (option_map absorb_param (s_starstar s)) (s_ret s) (s_exc s).
+        (option_map absorb_param (s_starstar s)) (s_ret s) (s_exc s) (s_template s).
 
-(* optimize.MergeTypeParameters on template-free signatures: `sig.template == new_template`
-   compares a tuple with a list, so VisitSignature always takes the branch that ends in
-   .Visit(SimplifyUnions()); constants are not touched *)
-Definition merge_type_parameters : unit_ -> unit_ :=
-  map_unit4 simplify_unions simplify_unions simplify_unions same_ty.
+(* ------------------------------------------------------------------ optimize.MergeTypeParameters
+   TypeParameterScope.type_params_stack[-1] inside a method: a dict TypeParameter -> Class | Signature; the
+   signature's template items shadow the class's (dict.update), keys compare structurally. *)
+Definition is_var (t : ty) : bool := match t with TVar _ _ _ _ => true | _ => false end.
+Definition var_name (t : ty) : nat := match t with TVar n _ _ _ => n | _ => 0 end.
 
-(* visitors.AdjustSelf (force=False) inside class [cls], method kind [mk] *)
-Definition adjust_self_param (cls : cid) (mk : nat) (p : param) : param :=
+(* the UnionType nodes below t in the order VisitUnionType is called (post-order; a TypeParameter's
+   fields are visited constraints first, then bound) *)
+Fixpoint unions_in (t : ty) : list (list ty) :=
+  match t with
+  | TUnion ts => flat_map unions_in ts ++ [ts]
+  | TGen _ _ ps | TTup _ _ ps | TCall _ _ ps => flat_map unions_in ps
+  | TVar _ _ hb ps =>
+      match ps with
+      | [] => []
+      | b :: cs => if hb then flat_map unions_in cs ++ unions_in b else unions_in b ++ flat_map unions_in cs
+      end
+  | _ => []
+  end.
+Definition unions_param (p : param) : list (list ty) :=
+  unions_in (p_ty p) ++ match p_mut p with Some m => unions_in m | None => [] end.
+Definition unions_oparam (p : option param) : list (list ty) :=
+  match p with Some p => unions_param p | None => [] end.
+(* Signature fields in order: params, starargs, starstarargs, return_type, exceptions, template *)
+Definition unions_sig (s : sig) : list (list ty) :=
+  flat_map unions_param (s_params s) ++ unions_oparam (s_star s) ++ unions_oparam (s_starstar s)
+  ++ unions_in (s_ret s) ++ flat_map unions_in (s_exc s) ++ flat_map unions_in (s_template s).
+
+(* self.type_param_union: defaultdict(list) keyed by the parameter NAME *)
+Definition tpu := list (nat * list ty).
+Fixpoint tpu_get (m : tpu) (n : nat) : list ty :=
+  match m with [] => [] | (k, l) :: r => if Nat.eqb k n then l else tpu_get r n end.
+Fixpoint tpu_set (m : tpu) (n : nat) (l : list ty) : tpu :=
+  match m with
+  | [] => [(n, l)]
+  | (k, l0) :: r => if Nat.eqb k n then (k, l) :: r else (k, l0) :: tpu_set r n l
+  end.
+(* _AppendNew(l1, l2).  The code tests `e1 is e2`; the model tests structural equality.  The two lists then
+   differ only by later structural duplicates, which neither the `seen` set of _AllContaining nor the final
+   JoinTypes can observe. *)
+Definition append_new (l1 l2 : list ty) : list ty :=
+  fold_left (fun acc e => if memb e acc then acc else acc ++ [e]) l2 l1.
+(* MergeTypeParameters.VisitUnionType(u); [ftp] = IsFunctionTypeParameter *)
+Definition tpu_step (ftp : ty -> bool) (m : tpu) (ts : list ty) : tpu :=
+  let tps := filter is_var ts in
+  fold_left (fun m t => if ftp t then tpu_set m (var_name t) (append_new (tpu_get m (var_name t)) tps) else m)
+            tps m.
+Definition tpu_of (ftp : ty -> bool) (s : sig) : tpu := fold_left (tpu_step ftp) (unions_sig s) [].
+
+(* _AllContaining(type_param, seen): returns (result, seen afterwards); the set is shared by the recursion.
+   fuel bounds the recursion depth (every nested call has added a new member to `seen`). *)
+Fixpoint all_containing (fuel : nat) (m : tpu) (tp : ty) (seen : list ty) : option (list ty * list ty) :=
+  match fuel with
+  | O => None
+  | S f =>
+    fold_left (fun st other =>
+      match st with
+      | None => None
+      | Some (result, seen) =>
+        if memb other seen then Some (result, seen)
+        else match all_containing f m other (other :: seen) with
+             | None => None
+             | Some (sub, seen') => Some (append_new result sub, seen')
+             end
+      end) (tpu_get m (var_name tp)) (Some ([tp], seen))
+  end.
+
+(* visitors.ReplaceTypeParameters(mapping): mapping[p] on the re-built parameter; KeyError = None *)
+Fixpoint assoc_ty (sg : list (ty * ty)) (t : ty) : option ty :=
+  match sg with [] => None | (k, v) :: r => if ty_eqb k t then Some v else assoc_ty r t end.
+(* [map_opt] with the function outside the fixpoint, so that it can be used on the children of a type *)
+Section MapOptS.
+  Context {A B : Type}.
+  Variable f : A -> option B.
+  Fixpoint map_opt_s (l : list A) : option (list B) :=
+    match l with
+    | [] => Some []
+    | x :: r => match f x, map_opt_s r with Some y, Some r' => Some (y :: r') | _, _ => None end
+    end.
+End MapOptS.
+Fixpoint subst (sg : list (ty * ty)) (t : ty) : option ty :=
+  match t with
+  | TUnion ts => option_map (fun l => TUnion (norm_union l)) (map_opt_s (subst sg) ts)
+  | TGen k c ps => option_map (TGen k c) (map_opt_s (subst sg) ps)
+  | TTup k c ps => option_map (TTup k c) (map_opt_s (subst sg) ps)
+  | TCall k c ps => option_map (TCall k c) (map_opt_s (subst sg) ps)
+  | TVar n sc hb ps =>
+      match map_opt_s (subst sg) ps with
+      | None => None
+      | Some ps' => assoc_ty sg (TVar n sc hb ps')
+      end
+  | _ => Some t
+  end.
+Definition subst_param (sg : list (ty * ty)) (p : param) : option param :=
+  match subst sg (p_ty p), match p_mut p with None => Some None | Some m => option_map Some (subst sg m) end with
+  | Some t, Some m => Some (mkParam (p_name p) t (p_kind p) (p_opt p) m)
+  | _, _ => None
+  end.
+Definition subst_oparam (sg : list (ty * ty)) (p : option param) : option (option param) :=
+  match p with None => Some None | Some p => option_map Some (subst_param sg p) end.
+Definition subst_sig (sg : list (ty * ty)) (tmpl : list ty) (s : sig) : option sig :=
+  match map_opt (subst_param sg) (s_params s), subst_oparam sg (s_star s), subst_oparam sg (s_starstar s),
+        subst sg (s_ret s), map_opt (subst sg) (s_exc s), map_opt (subst sg) tmpl with
+  | Some ps, Some st, Some ss, Some r, Some ex, Some tm => Some (mkSig ps st ss r ex tm)
+  | _, _, _, _, _, _ => None
+  end.
+
+(* the loop of VisitSignature over sig.template with _ReplaceByOuterIfNecessary; state = (new_template,
+   substitutions), newest substitution first *)
+Definition mtp_item (fuel : nat) (m : tpu) (ctp : ty -> bool)
+           (acc : option (list ty * list (ty * ty))) (item : ty) : option (list ty * list (ty * ty)) :=
+  match acc with
+  | None => None
+  | Some (tmpl, sg) =>
+    match all_containing fuel m item [] with
+    | None => None
+    | Some (cont, _) =>
+      match filter ctp cont with
+      | [] => Some (tmpl ++ [item], sg)
+      | cps => Some (tmpl, (item, join cps) :: sg)
+      end
+    end
+  end.
+Definition mtp_fuel (m : tpu) : nat := S (S (length (flat_map snd m))).
+(* MergeTypeParameters.VisitSignature inside a class with template [ct] ([] at module level).
+   `sig.template == new_template` compares a tuple with a list, so the "nothing changed" exit is never
+   taken: every signature is re-built, substituted and sent through SimplifyUnions. *)
+Definition mtp_sig (ct : list ty) (s : sig) : option sig :=
+  let st := s_template s in
+  let ftp := fun t => memb t st in
+  let ctp := fun t => memb t ct && negb (memb t st) in
+  let m := tpu_of ftp s in
+  match fold_left (mtp_item (mtp_fuel m) m ctp) st (Some ([], map (fun k => (k, k)) (st ++ ct))) with
+  | None => None
+  | Some (tmpl, sg) => option_map (map_sig simplify_unions) (subst_sig sg tmpl s)
+  end.
+Definition mtp_func (ct : list ty) (f : func) : option func :=
+  option_map (mkFunc (f_name f) (f_kind f)) (map_opt (mtp_sig ct) (f_sigs f)).
+Definition mtp_class (c : class) : option class :=
+  option_map (fun ms => mkClass (cl_name c) (cl_bases c) ms (cl_consts c) (cl_template c))
+             (map_opt (mtp_func (cl_template c)) (cl_methods c)).
+(* None: a TypeParameter outside every enclosing template (KeyError in the code) or fuel exhaustion *)
+Definition merge_type_parameters (u : unit_) : option unit_ :=
+  match map_opt mtp_class (u_classes u), map_opt (mtp_func []) (u_funcs u) with
+  | Some cs, Some fs => Some (mkUnit (u_consts u) cs fs)
+  | _, _ => None
+  end.
+
+(* visitors.ClassAsType: the class itself, parameterised with its template if it has one *)
+Definition class_as_type (c : class) : ty :=
+  match cl_template c with [] => TName KNamed (cl_name c) | ps => TGen KNamed (cl_name c) ps end.
+(* visitors.AdjustSelf (force=False) inside the class whose type is [ct], method kind [mk] *)
+Definition adjust_self_param (ct : ty) (mk : nat) (p : param) : param :=
   if negb (is_any (p_ty p)) then p
   else if Nat.eqb (p_name p) 0 && (Nat.eqb mk 0 || Nat.eqb mk 3) then
-    mkParam (p_name p) (TName KNamed cls) (p_kind p) (p_opt p) (p_mut p)
+    mkParam (p_name p) ct (p_kind p) (p_opt p) (p_mut p)
   else if Nat.eqb (p_name p) 1 && Nat.eqb mk 2 then
-    mkParam (p_name p) (TGen KNamed c_type [TName KNamed cls]) (p_kind p) (p_opt p) (p_mut p)
+    mkParam (p_name p) (TGen KNamed c_type [ct]) (p_kind p) (p_opt p) (p_mut p)
   else p.
-Definition adjust_self_func (cls : cid) (fn : func) : func :=
-  let g := adjust_self_param cls (f_kind fn) in
+Definition adjust_self_func (ct : ty) (fn : func) : func :=
+  let g := adjust_self_param ct (f_kind fn) in
   map_func (fun s => mkSig (map g (s_params s)) (option_map g (s_star s))
-                           (option_map g (s_starstar s)) (s_ret s) (s_exc s)) fn.
+                           (option_map g (s_starstar s)) (s_ret s) (s_exc s) (s_template s)) fn.
 Definition adjust_self (u : unit_) : unit_ :=
-  mkUnit (u_consts u) (map (map_class adjust_self_func (fun c => c)) (u_classes u)) (u_funcs u).
+  mkUnit (u_consts u)
+         (map (fun c => mkClass (cl_name c) (cl_bases c) (map (adjust_self_func (class_as_type c)) (cl_methods c))
+                                (cl_consts c) (cl_template c)) (u_classes u))
+         (u_funcs u).
 
 (* visitors.LookupClasses: every NamedType becomes a ClassType (class bases included) *)
 Definition resolve_unit (u : unit_) : unit_ :=
   let u' := map_ty_unit resolve u in
   mkUnit (u_consts u')
          (map (fun c => mkClass (cl_name c) (map (fun b => (KClass, snd b)) (cl_bases c))
-                                (cl_methods c) (cl_consts c)) (u_classes u'))
+                                (cl_methods c) (cl_consts c) (cl_template c)) (u_classes u'))
          (u_funcs u').
 
 (* visitors.ExtractSuperClassesByName on the node; `superclasses.update(node...)` lets it shadow deps *)
@@ -526,7 +694,7 @@ Definition run_pass (cs : bool) (o : opts) (Hd : hier) (p : pass) (u : unit_) : 
   | PCollapseLongUnions => Some (map_ty_unit (collapse_long_unions (o_max_union o)) u)
   | PAdjustReturnAndConstantGenericType => Some (adjust_return_and_constant u)
   | PAbsorbMutableParameters => Some (map_funcs_unit (map_func absorb_sig) u)
-  | PMergeTypeParameters => Some (merge_type_parameters u)
+  | PMergeTypeParameters => merge_type_parameters u
   | PAdjustSelf => Some (adjust_self u)
   | PLookupClasses => Some (resolve_unit u)
   end.
@@ -631,5 +799,17 @@ Fixpoint admits (H : hier) (t : ty) (v : value) {struct t} : Prop :=
                        | p :: r' => match r' with [] => admits H p r | _ => lst r' end
                        end) ps
       | _ => False
+      end
+  (* a type parameter is read as its upper value (pytd.TypeParameter.upper_value): the union of its
+     constraints, else its bound, else Any *)
+  | TVar _ _ hb ps =>
+      match ps with
+      | [] => True
+      | b :: cs =>
+        if hb then match cs with
+                   | [] => admits H b v
+                   | _ => (fix ex l := match l with [] => False | t' :: r => admits H t' v \/ ex r end) cs
+                   end
+        else admits H b v \/ (fix ex l := match l with [] => False | t' :: r => admits H t' v \/ ex r end) cs
       end
   end.
